@@ -1,4 +1,4 @@
 SPECIFICATION Spec
-CONSTANTS CmaxI = 39  EminNeg = 2  Emax = 2  PMax = 3
+CONSTANTS CmaxI = 39  EminNeg = 2  Emax = 1  PMax = 3
 INVARIANTS DigitsExact LayoutRules GSwitch SpecRoundTrip
 CHECK_DEADLOCK FALSE
